@@ -326,11 +326,127 @@ def solution_mapping(chk):
                     z3.And(*[T.zr(a) == b for a, b in zip(hvals, wants)]), func=fq, meta={"replay": rep})
 
 
+def bvp_system(chk):
+    """solve_ode_bvp: what is handed to scipy.integrate.solve_bvp (recording contract), with and without a transform, orders 1-3:
+      * the first-order system: row k is the next derivative, the last row the explicit form of the (transformed) equation at the original
+        coordinate of the solver's variable (coefficients = Faa di Bruno, proved above);
+      * the boundary residuals: condition j is (value of derivative d_j at end i_j) - C_j, in the caller's order, for every (end, derivative) choice;
+      * the mesh is the image of the caller's points under the transform (the points themselves without one), the initial guess, tolerance and
+        node limit are passed on; a solver status other than 0 is reported as ValueError."""
+    eng = chk.eng
+    fq = f"{MOD}.solve_ode_bvp"
+    Fx = z3.Function("rhs", z3.RealSort(), z3.RealSort())
+    XS = z3.Function("mesh_x", z3.IntSort(), z3.RealSort())
+    GUESS = z3.Function("guess", z3.IntSort(), z3.IntSort(), z3.RealSort())
+    Nm, i1 = z3.Ints("n_mesh i1")
+    tolv = z3.Real("tol")
+    maxn = z3.Int("max_nodes")
+    import itertools
+    for with_tf, K, ends in [(w, k_, e) for w in (False, True) for k_ in (1, 2, 3) for e in itertools.product((0, 1), repeat=k_)]:
+        if True:
+            captured = {}
+            ends = list(ends)                                    # every assignment of the K conditions to the two ends (concrete) ...
+            ders = list(range(K))                                # ... derivative orders: a permutation of 0..K-1 (concrete), values symbolic
+            ders = ders[1:] + ders[:1]
+            cvals = [z3.Real(f"C{j}") for j in range(K)]
+
+            def solve_bvp(eng_, func, bc, x, y=None, **kw):
+                captured.update(func=func, bc=bc, x=x, y=y, kw=kw)
+                raise I.PathEnd("reached solve_bvp")
+
+            def thunk(eng_, K=K, with_tf=with_tf):
+                install(eng_)
+                captured.clear()
+                eng_.externals["scipy.integrate.solve_bvp"] = solve_bvp
+                eng_.assume(z3.And(Nm >= 2, i1 >= 0, i1 < Nm))
+                tf, ufs = abstract_transform(eng_) if with_tf else (None, None)
+                fxm = I.Model("fx", lambda e, x: I.Arr(x.shape, lambda *i: Fx(T.zr(x.fn(*i))), "real"))
+                coeffs = [AS[k] for k in range(K + 1)]
+                xarr = I.Arr((Nm,), lambda i: XS(T.zi(i)), "real")
+                guess = I.Arr((K, Nm), lambda k, i: GUESS(T.zi(k), T.zi(i)), "real")
+                bd = [[ends[j], ders[j], cvals[j]] for j in range(K)]
+                try:
+                    eng_.call(eng_.get_function(MOD, "solve_ode_bvp"), [xarr, fxm, coeffs, bd, tf, tolv, maxn, guess])
+                except I.PathEnd:
+                    pass
+                finally:
+                    eng_.externals.pop("scipy.integrate.solve_bvp", None)
+                if "func" not in captured:
+                    raise I.PathEnd("solve_bvp not reached")
+                t = z3.Real("t")
+                yv = z3.Reals("s0 s1 s2")[:K]
+                yarr = I.Arr((K, 1), lambda k, i: M.select_const(k, [lambda v=v: v for v in yv]), "real")
+                out = eng_.call(captured["func"], [I.Arr((1,), lambda i: t, "real"), yarr])
+                ya = z3.Reals("ya0 ya1 ya2")[:K]
+                yb = z3.Reals("yb0 yb1 yb2")[:K]
+                res = eng_.call(captured["bc"], [I.Arr((K,), lambda k: M.select_const(k, [lambda v=v: v for v in ya]), "real"),
+                                                 I.Arr((K,), lambda k: M.select_const(k, [lambda v=v: v for v in yb]), "real")])
+                return dict(out=[out.fn(k, 0) for k in range(K)], shape=out.shape, res=[res.fn(j) for j in range(K)], rshape=res.shape, mesh=captured["x"].fn(i1),
+                            mshape=captured["x"].shape, y=captured["y"], kw=dict(captured["kw"]), ufs=ufs, t=t, yv=yv, ya=ya, yb=yb)
+            tag = f"solve_ode_bvp/{'transform' if with_tf else 'plain'}/K={K}/ends-{''.join(map(str, ends))}"
+            rep = {"what": "bvp", "K": K, "transform": with_tf}
+            outs = chk.explore(tag, thunk, func=fq)
+            rets = [o for o in outs if o.kind == "return"]
+            chk.add(f"{tag}/post/reaches-the-solver", [], z3.BoolVal(bool(rets)), func=fq, meta={"replay": rep, "paths": str([(o.kind, o.exc, o.note) for o in outs][:4])})
+            for oi, o in enumerate(rets):
+                v = o.value
+                sfx = "" if len(rets) == 1 else f"@{oi}"
+                hy = list(o.pc)
+                t, yv = v["t"], v["yv"]
+                if with_tf:
+                    Tf, Ti, D1, D2, D3 = v["ufs"]
+                    xo = Ti(t)
+                    bt = expected_b(K, [D1(xo), D2(xo), D3(xo)])
+                    rhs = (Fx(xo) - sum(bt[k] * yv[k] for k in range(K))) / bt[K]
+                    lead = bt[K]
+                    mesh_want = Tf(XS(i1))
+                else:
+                    rhs = (Fx(t) - sum(AS[k] * yv[k] for k in range(K))) / AS[K]
+                    lead = AS[K]
+                    mesh_want = XS(i1)
+                for k in range(K - 1):
+                    chk.add(f"{tag}/post/system-row{k}-is-next-derivative{sfx}", hy, T.zr(v["out"][k]) == yv[k + 1], func=fq, meta={"replay": rep})
+                chk.add_identity(f"{tag}/post/system-last-row-is-explicit-ode{sfx}", T.zr(v["out"][K - 1]), rhs, hy + [lead != 0], func=fq, side=False, meta={"replay": rep})
+                goals = []
+                for j in range(K):
+                    at_end = v["ya"][ders[j]] if ends[j] == 0 else v["yb"][ders[j]]
+                    goals.append(T.zr(v["res"][j]) == at_end - cvals[j])
+                chk.add(f"{tag}/post/boundary-residuals-in-the-callers-order{sfx}", hy, z3.And(*goals), func=fq, meta={"replay": rep})
+                chk.add(f"{tag}/post/mesh-guess-tolerance-node-limit-passed-on{sfx}", hy + [i1 >= 0, i1 < Nm],
+                        z3.And(T.zr(v["mesh"]) == mesh_want, T.zi(v["mshape"][0]) == Nm,
+                               z3.BoolVal(isinstance(v["y"], I.Arr) and v["y"].ndim == 2),
+                               *([T.zr(v["y"].fn(0, i1)) == GUESS(0, i1)] if isinstance(v["y"], I.Arr) and v["y"].ndim == 2 else []),
+                               z3.BoolVal(T.is_sym(v["kw"].get("tol")) and v["kw"]["tol"].eq(tolv) and T.is_sym(v["kw"].get("max_nodes")) and v["kw"]["max_nodes"].eq(maxn))),
+                        func=fq, meta={"replay": rep})
+    # the number of boundary conditions must be the order; a failed solve is reported
+    def t_count(eng_):
+        fxm = I.Model("fx", lambda e, x: x)
+        return eng_.call(eng_.get_function(MOD, "solve_ode_bvp"), [I.Arr((5,), lambda i: XS(T.zi(i)), "real"), fxm, [1, 1, 1], [[0, 0, 0]]])
+    outs = chk.explore("solve_ode_bvp/wrong-number-of-conditions", t_count, func=fq)
+    chk.add("solve_ode_bvp/raises/number-of-conditions-differs-from-the-order", [], z3.BoolVal(bool(outs) and all(o.kind == "raise" and o.exc == "ValueError" for o in outs)),
+            func=fq, meta={"replay": {"what": "bvp"}})
+
+    def t_status(eng_):
+        status = z3.Int("solver_status")
+        eng_.assume(status != 0)
+        eng_.externals["scipy.integrate.solve_bvp"] = lambda e, *a, **k: I.Opaque("bvp-result", status=status, sol=None)
+        try:
+            fxm = I.Model("fx", lambda e, x: x)
+            return eng_.call(eng_.get_function(MOD, "solve_ode_bvp"), [I.Arr((5,), lambda i: XS(T.zi(i)), "real"), fxm, [1, 1, 1], [[0, 0, 0], [1, 0, 0]], None, tolv, maxn,
+                                                                        I.Arr((2, 5), lambda k, i: GUESS(T.zi(k), T.zi(i)), "real")])
+        finally:
+            eng_.externals.pop("scipy.integrate.solve_bvp", None)
+    outs = chk.explore("solve_ode_bvp/solver-failed", t_status, func=fq)
+    chk.add("solve_ode_bvp/raises/solver-status-other-than-zero", [], z3.BoolVal(bool(outs) and all(o.kind == "raise" and o.exc == "ValueError" for o in outs)),
+            func=fq, meta={"replay": {"what": "bvp"}, "paths": str([(o.kind, o.exc, o.note) for o in outs][:4])})
+
+
 def build(chk):
     coefficient_transformation(chk)
     explicit_rearrangement(chk)
     transformation_matrix(chk)
     ivp_system(chk)
+    bvp_system(chk)
     solution_mapping(chk)
 
 
@@ -343,7 +459,8 @@ def main(tier="quick", seed=0, bounded=True, proof=True):
         "them holds for all smooth functions); differentiation rule table pyvc.calculus.D",
         "the transform enters as uninterpreted functions g, g^-1, g', g'', g''' (its own consistency is property C03)",
         "the generic Bell-polynomial branch for K > 3 is outside the property (the public entry points reject a transform there: path obligation)",
-        "solve_ode_bvp's system and boundary-condition closures: bounded layer (same helper functions as the IVP path, which is proved)",
+        "solve_ode_bvp: the number of mesh points, the order (1-3) and the assignment of conditions to the two ends are instantiated (all 14 assignments), "
+        "values, coefficients, mesh and guess symbolic",
     ]
     if proof:
         build(chk)
